@@ -40,7 +40,7 @@ fn subjects() -> Vec<String> {
 
 pub fn patterns() -> Vec<&'static str> {
     vec![
-        "a", "abc", "", ".", "..", "a.c", "a*", "a+", "a?", "ab*", "(ab)*", "(ab)+c?", "a|b", "a|bc", "ab|c", "(a|b)c", "a(b|c)", "(a|b)*", "a||b", "[ab]", "[^a]", "[a-c]+", "[^a-b]*", "a{2}", "a{1,2}", "a{2,}", "(a|b){2}",
+        "a", "abc", "", ".", "..", "a.c", "a*", "a+", "a?", "ab*", "(ab)*", "(ab)+c?", "a|b", "a|bc", "ab|c", "a|ab", "a|ab|abc", "a(|b)", "(a|ab)*", "(a|ab)(c|bcd)?", "b|bc|bca", "(|a)b", "(a|b)c", "a(b|c)", "(a|b)*", "a||b", "[ab]", "[^a]", "[a-c]+", "[^a-b]*", "a{2}", "a{1,2}", "a{2,}", "(a|b){2}",
         "^a", "a$", "^a$", "^a|b$", "^(a|b)$", "\\d", "\\d+", "\\w+", "\\s", "\\p{Lu}", "\\p{L}+", "\\.", "a\\.b", "\\\\", "\\[a\\]", "\\(a\\)", "a\\|b", "\\^a", "a\\$", "\\\\d",
         // invalid patterns: both functions must answer false
         "[a", "(", "*a", "a{2,1}", "(?P<", "\\", "a)",
